@@ -440,6 +440,11 @@ func genStoreValue(r *Rng, kind string, nasty bool) V {
 		if r.Chance(1, 4) {
 			return V{Nil: true}
 		}
+		if e := elemKind(kind); isSliceKind(e) || isMapKind(e) {
+			v := genStoreValue(r, e, nasty)
+			v.Nil = false // (a pointer to a nil slice and a pointer to an empty one dump alike)
+			return v
+		}
 		return genStoreScalar(r, elemKind(kind), nasty)
 	}
 	return genStoreScalar(r, kind, nasty)
